@@ -229,7 +229,7 @@ def run(tier):
     total = len(cases)
     if tier == "quick" and len(cases) > 5000:   # level-1 cases all, deeper ones by a seeded stride
         deep = [c for c in cases if c["lvl"] > 1]
-        step = max(1, len(deep) // 2200)
+        step = max(1, len(deep) // 1400)
         cases = [c for c in cases if c["lvl"] <= 1] + deep[common.seed() % step::step]
     scaled = [dict(c, _scale=f) for c in cases
               if (c["t"]["k"] == "Dense" or (c["t"]["k"] == "Annot" and c["t"]["a"][0]["k"] == "Dense"))
